@@ -656,6 +656,10 @@ func (g *Gen) compUse(x int, who string) (string, string) {
 			default:
 				body, out = "@if(true)y@end", "y"
 			}
+			if sb.Len() == 0 {
+				// white space may stand between the header and the first slot
+				sb.WriteString(g.pick([]string{"", "", " ", "\n  ", "\r\n\t"}))
+			}
 			if sn == "" {
 				sb.WriteString("@slot" + " " + body + "@end")
 				slots[sn] = " " + out
@@ -663,8 +667,10 @@ func (g *Gen) compUse(x int, who string) (string, string) {
 				sb.WriteString(`@slot("` + sn + `")` + body + "@end")
 				slots[sn] = out
 			}
+			// between the slots of a use (and before the closing @end): white space and comments, in any number
+			sb.WriteString(g.pick([]string{"", "", "", " ", "\n", "{{-- c --}}", " {{-- c --}} ", "\n{{-- a --}}\n{{-- b --}}\n", "{{-- slot x end --}}", "\n  {{-- c --}}"}))
 		}
-		if sb.Len() > 0 {
+		if strings.Contains(sb.String(), "@slot") {
 			src += sb.String() + "@end"
 		}
 	}
@@ -1085,7 +1091,16 @@ func casesC13(g *Gen) []*Case {
 		line := strings.Count(pre, "\n") + 1
 		t := newTree()
 		t.files["tpl/layouts/l.tw"] = "<L>\n@reserve(\"a\")\n</L>"
-		switch g.n(3) {
+		switch g.n(5) {
+		case 3, 4:
+			// an unknown component written in the layout is a fault of the layout file, whether the page that uses the
+			// layout is loaded before it (index) or after it (views/home)
+			page := g.pick([]string{"tpl/index.tw", "tpl/about.tw", "tpl/views/home.tw", "tpl/z.tw"})
+			t.files["tpl/layouts/l.tw"] = pre + "@component(\"~nosuchcomp\")\n@reserve(\"a\")"
+			t.files[page] = "@use(\"~l\")@insert(\"a\")x@end"
+			c := histCase("layout_unknown_component_line", t, []string{opNew("tpl", ".tw", "", false)}, "NewTemplate")
+			c.Oracle = expectResults(map[int]func(string) string{0: wantErrAt(line, "tpl/layouts/l.tw", "nosuchcomp")})
+			cs = append(cs, c)
 		case 0:
 			t.files["tpl/p.tw"] = "@use(\"~l\")" + pre + "@insert(\"zz\")x@end"
 			c := histCase("undefined_insert_line", t, []string{opNew("tpl", ".tw", "", false)}, "NewTemplate")
@@ -1375,7 +1390,7 @@ func casesC18(g *Gen) []*Case {
 		c.Oracle = expectResults(map[int]func(string) string{0: wantNewOK, 1: wantOK("<L><c>T in</c>x</L>"), 2: wantOK("about")})
 		cs = append(cs, c)
 	}
-	mustFailNaming := func(path string, alsoOK bool) func(string) string {
+	mustFailNaming := func(path string, alsoOK, strict bool) func(string) string {
 		return func(r string) string {
 			if strings.HasPrefix(r, "NEWOK") {
 				if alsoOK {
@@ -1392,7 +1407,7 @@ func casesC18(g *Gen) []*Case {
 					msg = unhx(f[3])
 				}
 				base := strings.TrimSuffix(path[strings.LastIndex(path, "/")+1:], ".tw")
-				if p == path || strings.Contains(msg, base) || strings.HasSuffix(p, ".tw") {
+				if p == path || strings.Contains(msg, base) || (!strict && strings.HasSuffix(p, ".tw")) {
 					return ""
 				}
 				return fmt.Sprintf("the error does not identify the faulty file %q: path %q message %q", path, p, msg)
@@ -1400,6 +1415,17 @@ func casesC18(g *Gen) []*Case {
 			return "expected a load error: " + describe(rr)
 		}
 	}
+	// the same tree with the pages in a directory that sorts before components/ and layouts/: the page is loaded first and meets
+	// the faulty component or layout while using it
+	early := newTree()
+	for k, v := range valid.files {
+		if k == "tpl/home.tw" || k == "tpl/about.tw" {
+			k = "tpl/aa/" + strings.TrimPrefix(k, "tpl/")
+		}
+		early.files[k] = v
+	}
+	for ti, valid := range []*Tree{valid, early} {
+	_ = ti
 	for _, p := range sortedKeys(valid.files) {
 		content := valid.files[p]
 		step := 1
@@ -1411,14 +1437,14 @@ func casesC18(g *Gen) []*Case {
 			t.files[p] = content[:cut]
 			c := histCase("fault_truncated", t, []string{opNew("tpl", ".tw", "", false)}, "NewTemplate with "+p+" truncated to "+strconv.Itoa(cut)+" bytes")
 			// a truncation may still be a valid template; what must not happen is a crash, a hang or a half-loaded template
-			c.Oracle = expectResults(map[int]func(string) string{0: mustFailNaming(p, true)})
+			c.Oracle = expectResults(map[int]func(string) string{0: mustFailNaming(p, true, false)})
 			cs = append(cs, c)
 		}
 		for _, garbage := range []string{"{{", "@if(", "{{ $ }}", "{{ 1 + }}", "\xff\xfe{{ }}", "@insert(\"x\""} {
 			t := valid.clone()
 			t.files[p] = garbage
 			c := histCase("fault_garbage", t, []string{opNew("tpl", ".tw", "", false)}, "NewTemplate with "+p+" replaced by garbage")
-			c.Oracle = expectResults(map[int]func(string) string{0: mustFailNaming(p, false)})
+			c.Oracle = expectResults(map[int]func(string) string{0: mustFailNaming(p, false, true)})
 			cs = append(cs, c)
 		}
 		{
@@ -1426,7 +1452,7 @@ func casesC18(g *Gen) []*Case {
 			delete(t.files, p)
 			t.links = append(t.links, p)
 			c := histCase("fault_dangling_symlink", t, []string{opNew("tpl", ".tw", "", false)}, "NewTemplate with "+p+" a dangling symlink")
-			c.Oracle = expectResults(map[int]func(string) string{0: mustFailNaming(p, false)})
+			c.Oracle = expectResults(map[int]func(string) string{0: mustFailNaming(p, false, true)})
 			cs = append(cs, c)
 		}
 		{
@@ -1435,16 +1461,17 @@ func casesC18(g *Gen) []*Case {
 			t.dirs = append(t.dirs, p)
 			c := histCase("fault_directory_in_place", t, []string{opNew("tpl", ".tw", "", false)}, "NewTemplate with a directory at "+p)
 			isPage := !strings.Contains(p, "layouts/") && !strings.Contains(p, "components/")
-			c.Oracle = expectResults(map[int]func(string) string{0: mustFailNaming(p, isPage)})
+			c.Oracle = expectResults(map[int]func(string) string{0: mustFailNaming(p, isPage, true)})
 			cs = append(cs, c)
 		}
 		if strings.Contains(p, "layouts/") || strings.Contains(p, "components/") {
 			t := valid.clone()
 			delete(t.files, p)
 			c := histCase("fault_deleted", t, []string{opNew("tpl", ".tw", "", false)}, "NewTemplate with "+p+" deleted")
-			c.Oracle = expectResults(map[int]func(string) string{0: mustFailNaming(p, false)})
+			c.Oracle = expectResults(map[int]func(string) string{0: mustFailNaming(p, false, true)})
 			cs = append(cs, c)
 		}
+	}
 	}
 	// a symlinked template with a dangling target fails loading; names whose stem ends in the extension
 	{
